@@ -691,6 +691,10 @@ func (c20) Exec(r *kit.Run) {
 		} else {
 			v := kit.NewVars()
 			sol.Scan(v)
+			if again := dump(); again != after {
+				r.Fail("db-mismatch", "loading-the-library-changed-other-predicates:via-"+ld.Path, "after load %d (%s, fault %s) the database was\n  %s\nand one ensure_loaded(lib) later it is\n  %s\n(the library file defines none of these predicates)", li, ld.Path, ld.Fault, after, again)
+				return
+			}
 			if v.Get("L") != "[l]" || v.Get("C") != "[0]" {
 				r.Fail("db-mismatch", "library-file-loaded-again:via-"+ld.Path, "after load %d (%s, fault %s, returned %s) and one more ensure_loaded(lib), the library's multifile predicate has the clauses %s and its counter %s; the file defines [l] and [0] and is loaded once\n  text: %q", li, ld.Path, ld.Fault, kit.CanonErr(err), v.Get("L"), v.Get("C"), text)
 				return
